@@ -69,9 +69,17 @@ class MetaString(type):
         string_capacity = info.size - 8
         Int64._to_buffer(buffer, offset, size)
         if isinstance(value, String):
-            buffer.update_from_xbuffer(
-                offset, value._buffer, value._offset, value._size
-            )
+            if value._size == size:
+                buffer.update_from_xbuffer(
+                    offset, value._buffer, value._offset, value._size
+                )
+            else:
+                # an existing string is overwritten by an instance that has
+                # less room: the text is copied, the size word written above
+                # stays the destination's own
+                data = bytes(value.to_bytes())[:string_capacity]
+                data += b"\x00" * (string_capacity - len(data))
+                buffer.update_from_buffer(offset + 8, data)
         elif isinstance(value, str):
             data = info.data
             off = string_capacity - len(data)
